@@ -148,7 +148,7 @@ func (propC15) Gen(seed uint64, ex map[string]bool) interface{} {
 		case c < 27:
 			sc.Ops = append(sc.Ops, c15Op{K: "load", Name: name})
 		default:
-			sc.Ops = append(sc.Ops, c15Op{K: "render", Name: name, Via: pick(r, []int{0, 0, 0, 1, 2})})
+			sc.Ops = append(sc.Ops, c15Op{K: "render", Name: name, Via: pick(r, []int{0, 0, 0, 1, 2, 3})})
 		}
 	}
 	sc.Ops = append(sc.Ops, c15Op{K: "render", Name: sc.Names[0]}, c15Op{K: "load", Name: sc.Names[len(sc.Names)-1]})
@@ -189,13 +189,14 @@ type c15Loader struct {
 
 // tsLoader: timestamp-aware in-memory loader with read counters and one-shot faults.
 type tsLoader struct {
-	src    map[string]string
-	mtime  map[string]int64
-	loads  map[string]int
-	mtimes map[string]int
-	fault  *string
-	fired  *int64
-	tick   func(name string) // called at the start and at the end of every loader-level call
+	src          map[string]string
+	mtime        map[string]int64
+	loads        map[string]int
+	mtimes       map[string]int
+	fault        *string
+	fired        *int64
+	firedMissing *bool             // the fault hit a call for a name this loader does not have
+	tick         func(name string) // called at the start and at the end of every loader-level call
 }
 
 func (l *tsLoader) Load(name string) (string, error) {
@@ -204,13 +205,17 @@ func (l *tsLoader) Load(name string) (string, error) {
 		defer l.tick(name)
 	}
 	s, ok := l.src[name]
-	if !ok {
-		return "", fmt.Errorf("%w: %s", twig.ErrTemplateNotFound, name)
-	}
 	if *l.fault == "load-eio" {
+		// the loader is down: it fails whether or not it would have had the name
 		*l.fault = ""
 		*l.fired++
+		if !ok && l.firedMissing != nil {
+			*l.firedMissing = true
+		}
 		return "", fmt.Errorf("read %s: %w", name, syscall.EIO)
+	}
+	if !ok {
+		return "", fmt.Errorf("%w: %s", twig.ErrTemplateNotFound, name)
 	}
 	l.loads[name]++
 	return s, nil
@@ -233,7 +238,11 @@ func (l *tsLoader) GetModifiedTime(name string) (int64, error) {
 	return l.mtime[name], nil
 }
 
-func c15Src(name string, ver int) string { return fmt.Sprintf("[%s#v%d]{{ 1 + 1 }}", name, ver) }
+// c15Src: every version of every source carries a unique tag, as literal text and inside a macro (so that a page
+// which only imports the template shows which version it got).
+func c15Src(name string, ver int) string {
+	return fmt.Sprintf("{%% macro tag() %%}[%s#v%d]{%% endmacro %%}[%s#v%d]{{ 1 + 1 }}", name, ver, name, ver)
+}
 
 var reVer = regexp.MustCompile(`#v([0-9]+)\]`)
 
@@ -292,6 +301,7 @@ func (propC15) Run(scI interface{}) (o *Outcome) {
 		}
 	}
 	var faultsFired int64
+	firedMissing := false
 	var fsLoaders []*c15Loader
 	fsReads := map[string]int{}
 	fsFault := map[string]*string{} // dir -> armed fault
@@ -333,7 +343,7 @@ func (propC15) Run(scI interface{}) (o *Outcome) {
 		switch k {
 		case "simts":
 			l.ts = true
-			l.sim = &tsLoader{src: map[string]string{}, mtime: map[string]int64{}, loads: map[string]int{}, mtimes: map[string]int{}, fault: &l.fault, fired: &faultsFired}
+			l.sim = &tsLoader{src: map[string]string{}, mtime: map[string]int64{}, loads: map[string]int{}, mtimes: map[string]int{}, fault: &l.fault, fired: &faultsFired, firedMissing: &firedMissing}
 			l.real = l.sim
 			li := i
 			l.sim.tick = func(name string) { raceTick(li, name) }
@@ -380,11 +390,13 @@ func (propC15) Run(scI interface{}) (o *Outcome) {
 	for _, n := range []string{"a", "b", "c", "d"} {
 		wrap["winc_"+n] = "<inc>{% include '" + n + "' %}"
 		wrap["wext_"+n] = "{% extends '" + n + "' %}"
+		wrap["wimp_"+n] = "<imp>{% import '" + n + "' as M %}{{ M.tag() }}"
 	}
 	e.RegisterLoader(twig.NewArrayLoader(wrap))
 	for _, n := range []string{"a", "b", "c", "d"} { // fixed order: a harness map walk would differ between processes
 		e.Load("winc_" + n)
 		e.Load("wext_" + n)
+		e.Load("wimp_" + n)
 	}
 	badNext := false
 	setFile := func(l *c15Loader, name string, ver int, second bool) {
@@ -685,6 +697,7 @@ func (propC15) Run(scI interface{}) (o *Outcome) {
 			}
 			namesBefore := fmt.Sprint(sortedStrings(e.GetCachedTemplateNames()))
 			firedBefore := faultsFired
+			firedMissing = false // (set by the loaders during THIS call only)
 			got := -2
 			var gerr error
 			if op.K == "load" {
@@ -704,6 +717,12 @@ func (propC15) Run(scI interface{}) (o *Outcome) {
 					top, pre = "winc_"+op.Name, "<inc>"
 				case 2: // … through extends
 					top = "wext_" + op.Name
+				case 3: // … through import: only the template's macro is used
+					top, pre = "wimp_"+op.Name, "<imp>"
+				}
+				suffix := "2"
+				if op.Via == 3 {
+					suffix = ""
 				}
 				if op.Via != 0 {
 					o.Probes["renders_through_a_wrapper"]++
@@ -712,7 +731,7 @@ func (propC15) Run(scI interface{}) (o *Outcome) {
 				gerr = err
 				if err == nil {
 					got = verOf(out)
-					if out != pre+fmt.Sprintf("[%s#v%d]2", op.Name, got) {
+					if out != pre+fmt.Sprintf("[%s#v%d]%s", op.Name, got, suffix) {
 						return fail("rendered output is not the tagged source", fmt.Sprintf("op #%d render %s: %q", oi, op.Name, out))
 					}
 				}
@@ -797,6 +816,17 @@ func (propC15) Run(scI interface{}) (o *Outcome) {
 					}
 				}
 			}
+			if faultNow && firedMissing && faultsFired-firedBefore == 1 {
+				// the loader that failed does not have the name: it could not have served it, so the call must come out as
+				// if that loader had simply said "not found" — except that, with nobody having the name, the error may be the
+				// loader's own instead of "not found"
+				firedMissing = false
+				if !(admissible[got] || (got == -3 && admissible[-1])) {
+					return fail("a failing loader that does not have the name changed what was served",
+						fmt.Sprintf("op #%d %s %s served v%d err=%v; admissible %v\n %s\n history: %s", oi, op.K, op.Name, got, gerr, keysOf(admissible), describe(), opsText(sc.Ops[:oi+1])))
+				}
+			}
+			firedMissing = false
 			if faultNow {
 				// the call during which a fault fires: may fail, or serve the cached version, or the right one
 				// (a failing loader is skipped, so a later loader that has the name may legitimately serve it)
@@ -972,7 +1002,7 @@ func opsText(ops []c15Op) string {
 		case "register":
 			s += fmt.Sprintf("register(%s,via%d) ", op.Name, op.Via)
 		case "render":
-			s += fmt.Sprintf("render(%s%s) ", op.Name, []string{"", " through include", " through extends"}[op.Via%3])
+			s += fmt.Sprintf("render(%s%s) ", op.Name, []string{"", " through include", " through extends", " through import"}[op.Via%4])
 		case "fault":
 			s += fmt.Sprintf("fault(L%d,%s) ", op.L, op.F)
 		default:
